@@ -287,8 +287,9 @@ def file_case(draw, loaders=None):
                   provenance=draw(st.booleans()))
     loader = draw(st.sampled_from(loaders or LOADERS))
     # the skip_* read paths seek inside the store and do not leave the stream at the end of the
-    # object, so several objects on one stream are only read with the eager loaders
-    stream = draw(st.sampled_from([1, 1, 2, 3])) if loader in ("ts", "tc") else 1
+    # object, so on a multi-object stream the objects BEFORE the faulty one are read with the eager
+    # loader of the same family and only the last (faulty) one with the drawn loader
+    stream = draw(st.sampled_from([1, 1, 2, 3]))
     return dict(spec=spec, extras=extras, loader=loader, stream=stream, strict=False)
 
 
@@ -311,9 +312,10 @@ def run_truncation(case, ctx):
         write(path, prefix + buf[:cut])
         ctx.notes["truncations"] = ctx.notes.get("truncations", 0) + 1
         with open(path, "rb") as f:
+            eager = "ts" if loader.startswith("ts") else "tc"
             for i in range(k - 1):
-                obj = load_with(tskit, f, loader)
-                if loader in full_loaders and cut % 64 == 0:
+                obj = load_with(tskit, f, eager)
+                if cut % 64 == 0:
                     ctx.check(image(as_tables(obj)) == orig_img, "stream_prefix", f"object {i} before the truncated one differs")
             try:
                 obj = load_with(tskit, f, loader)
@@ -365,7 +367,40 @@ def structural_faults(buf, lay):
                 yield sub(o + fo, "<Q", d, "descriptor." + nm)
 
 
-def classify_structural(tskit, lay, off, orig_img, new_img, label, loader="tc"):
+PAIRS = [("indexes/edge_insertion_order", "indexes/edge_removal_order"),
+         ("edges/metadata", "edges/metadata_offset"), ("migrations/metadata", "migrations/metadata_offset"),
+         ("individuals/parents", "individuals/parents_offset")]
+
+
+def _cmp_keys(a, b):
+    n = min(len(a), len(b))
+    if a[:n] != b[:n]:
+        return -1 if a[:n] < b[:n] else 1
+    return (len(a) > len(b)) - (len(a) < len(b))
+
+
+def findable_keys(lay, data):
+    """Which of the ORIGINAL key names a binary search (as done by the store) still finds in the key array of the
+    altered file `data`."""
+    keys = [bytes(data[it["key_start"]: it["key_start"] + it["key_len"]]) for it in lay["items"]]
+    found = set()
+    for it in lay["items"]:
+        want = it["key"].encode("utf8")
+        lo, hi = 0, len(keys)
+        while lo < hi:
+            mid = (lo + hi) // 2
+            c = _cmp_keys(want, keys[mid])
+            if c < 0:
+                hi = mid
+            elif c > 0:
+                lo = mid + 1
+            else:
+                found.add(it["key"])
+                break
+    return found
+
+
+def classify_structural(tskit, lay, off, orig_img, new_img, label, loader="tc", data=None):
     """Returns (key_or_None, description) for a structural alteration that LOADED."""
     reg = region_of(lay, off)
     if new_img == orig_img:
@@ -379,6 +414,12 @@ def classify_structural(tskit, lay, off, orig_img, new_img, label, loader="tc"):
                     "descriptor type/array_len altered within the alignment padding: same object loaded")
         if reg == "key":
             it = next(i for i in lay["items"] if i["key_start"] <= off < i["key_start"] + i["key_len"])
+            if data is not None and not loader.endswith("skip_tables"):
+                found = findable_keys(lay, data)
+                for a_, b_ in PAIRS:
+                    if (a_ in found) != (b_ in found) and any(i["key"] == a_ for i in lay["items"]):
+                        return None, (f"key '{it['key']}' altered: exactly one of the paired items {a_} / {b_} can still be "
+                                      "found, yet the file loaded")
             if it["key"] in OPTIONAL_KEYS:
                 return ("kastore.optional_item_key_altered",
                         f"key '{it['key']}' altered: item treated as absent (it held the default value)")
@@ -403,6 +444,14 @@ def classify_structural(tskit, lay, off, orig_img, new_img, label, loader="tc"):
         # kastore looks keys up by binary search and unknown keys are ignored, so a renamed key makes
         # its own item - and possibly sorted neighbours - unfindable.  Required items then raise;
         # what can load silently is the loss of items the loader treats as optional.
+        if data is not None and not loader.endswith("skip_tables"):
+            # items that must be present together: a file in which the store finds exactly one of them is
+            # rejected by the loader, so having loaded it is NOT part of the known 'optional item' class
+            found = findable_keys(lay, data)
+            for a_, b_ in PAIRS:
+                if (a_ in found) != (b_ in found) and any(i["key"] == a_ for i in lay["items"]):
+                    return None, (f"key '{key}' altered: exactly one of the paired items {a_} / {b_} can still be found, "
+                                  "yet the file loaded")
         diff = [p for p in set(orig_img) | set(new_img) if orig_img.get(p) != new_img.get(p)]
         allowed = set(OPTIONAL_KEYS) | {"reference_sequence", "indexes"}
         ok = all(p in allowed or p.split("/")[0] in ("reference_sequence", "indexes") for p in diff)
@@ -445,7 +494,7 @@ def run_structural(case, ctx):
         except acc:
             continue
         new_img = image(as_tables(obj))
-        key, desc = classify_structural(tskit, lay, off, ref_img, new_img, lab, loader)
+        key, desc = classify_structural(tskit, lay, off, ref_img, new_img, lab, loader, data)
         if key is not None and key in known:
             ctx.notes["excluded:" + key] = ctx.notes.get("excluded:" + key, 0) + 1
             continue
